@@ -7,21 +7,23 @@ V = os.path.dirname(os.path.dirname(os.path.abspath(__file__)))
 COMMON_NOTE = ("Trusted: Lean 4.33 kernel, axioms {propext, Classical.choice, Quot.sound} (audited per theorem each run), Mathlib; the "
                "hand-written Lean model; the model<->code tie is a differential run (generated, boundary-directed inputs) of the real "
                "generic crate at an exact rational scalar against the model at Rat, plus f64 outcome/bit comparisons; ndarray, "
-               "num-traits and the Rust type system are modelled, not verified. ")
+               "num-traits and the Rust type system are modelled, not verified. For the arithmetic kernels a translator regenerates their Lean "
+               "definitions from /repo/src on every run and the FT_* theorems re-prove, for every input, that the model is built from "
+               "exactly those kernels (DESIGN 9.6). ")
 CLAIMED = {
  "C01": ("Kernel-checked theorems for every strictly increasing axis, every length, every lane structure and every in-range query: "
          "C01_struct/C01_exact (value of the line through the bracketing points), C01_knot, C01_hull, C01_default_axis, and "
          "C01_rounding (13u+12u^2 bound under the standard model of fp arithmetic). Tied to the code by exact-rational "
          "correspondence and f64 runs held to the proved bound.", "§5 C01",
          "rounding only under the standard model (no overflow/underflow); f32 not run",
-         "Lean 4 proof (field algebra over the lookup theorem C11) + exact-rational correspondence"),
+         "Lean 4 proof (field algebra over the lookup theorem C11) + exact-rational correspondence + formula tie (kernels re-translated from the source each run, FT_* theorems)"),
  "C02": ("Kernel-checked: for every strictly increasing axis (n>=3), every data set and every non-periodic boundary pair the solver "
          "never fails (all Thomas pivots positive, C02_build), every answered query is the value of one cubic of degree <= 3 per interval "
          "(C02_eval, C02_cubic as Mathlib Polynomial), passes through the data (C02_through, C02_knot), is C1 (C02_C1) and C2 (C02_C2, from "
          "thomas_sound + the row<->C2 equivalence). Exact correspondence + exact oracle (values at knots, 5th sample on the fitted cubic, "
          "derivative jumps = 0) for all boundary selections incl. Periodic and per-lane Individual; f64 closeness test.", "§5 C02",
          "single-lane theorems (lanes via C08); periodic covered by exact oracle/correspondence, its theorems are in C07; no rounding bound for the spline",
-         "Lean 4 proof (Thomas soundness, pivot positivity by induction, field algebra) + exact-rational correspondence"),
+         "Lean 4 proof (Thomas soundness, pivot positivity by induction, field algebra) + exact-rational correspondence + formula tie (kernels re-translated from the source each run, FT_* theorems)"),
  "C03": ("Kernel-checked: the returned slopes satisfy the selected condition at each end (C03_conditions: S'=v, S''=v, continuous third "
          "derivative for NotAKnot incl. the repaired right row; C03_parabola) and are the only slopes whose piecewise cubic is C2 and meets "
          "the end conditions (C03_unique via thomas_unique, C03_unique_values); Periodic: the condensed solve returns slopes satisfying the cyclic C2 system with "
@@ -29,24 +31,24 @@ CLAIMED = {
          "argument on the strictly dominant cyclic system); C03_defect_witness machine-checks that the pre-repair row is "
          "not the NotAKnot condition. Exact end-condition residuals on the implementation and comparison with an independent exact spline "
          "(Gaussian elimination on the conditions) for all 25 end pairs, Periodic, per-lane assignments.", "§5 C03",
-         "single-lane theorems, carried to lanes by C08_spline_build_lanes / C08_individual", "Lean 4 proof (system <-> conditions equivalence, uniqueness, periodic condensation) + exact oracles"),
+         "single-lane theorems, carried to lanes by C08_spline_build_lanes / C08_individual", "Lean 4 proof (system <-> conditions equivalence, uniqueness, periodic condensation) + exact oracles + formula tie (kernels re-translated from the source each run, FT_* theorems)"),
  "C04": ("Theorems C04_struct, C04_blend, C04_node, C04_gridline, C04_transpose for all grids, axes, lanes and in-grid queries; "
          "exact correspondence and blend oracle at Q, f64 runs within the composed rounding bound, transposition metamorphic test.",
-         "§5 C04", "rounding as C01 (three nested calc_frac)", "Lean 4 proof (field identities, bracket uniqueness) + exact-rational correspondence"),
+         "§5 C04", "rounding as C01 (three nested calc_frac)", "Lean 4 proof (field identities, bracket uniqueness) + exact-rational correspondence + formula tie (kernels re-translated from the source each run, FT_* theorems)"),
  "C05": ("Theorems C05_linear, C05_bilinear (answered iff in the closed range, otherwise exactly OutOfBounds, never a panic), "
          "C05_gate_nan(_hi) with no assumption on the comparison operators (NaN), C05_batch_ok_iff / C05_batch_first_error for every "
          "strategy and entry point; spline variant in Props/C02. Outcome correspondence at Q and f64 over all strategies, entry points, "
          "range ends, adjacent floats, +-inf, NaN, offending element at every batch position.", "§5 C05",
-         "NaN handled by the operator-agnostic theorem + f64 runs", "Lean 4 proof (range gate normal form) + outcome correspondence"),
+         "NaN handled by the operator-agnostic theorem + f64 runs", "Lean 4 proof (range gate normal form) + outcome correspondence + formula tie (kernels re-translated from the source each run, FT_* theorems)"),
  "C06": ("Theorems: never rejects (ordered field), in-range results identical with the flag on/off for ARBITRARY scalar operations "
          "(bit-identity), continuation by the first/last line piece resp. border cell (C06_linear_left/right/inside, C06_bilinear_cell); "
          "spline statements in Props/C02. Exact checks at Q incl. end cubic recovered from 4 exact samples; on/off bitwise at f64.",
-         "§5 C06", "no rounding bound outside the range for f64", "Lean 4 proof + exact-rational correspondence and exact end-polynomial oracle"),
+         "§5 C06", "no rounding bound outside the range for f64", "Lean 4 proof + exact-rational correspondence and exact end-polynomial oracle + formula tie (kernels re-translated from the source each run, FT_* theorems)"),
  "C07": ("Kernel-checked (any slopes, single lane): C07_mode (periodic evaluation selected iff Periodic boundary and extrapolation), "
          "C07_wrap (outside the range the value is the in-range value at q - kP, k integer, wrapped point in [x0, x_{n-1})), C07_periodic "
          "(S(q + kP) = S(q) for every integer k, using the equal-ends check), C07_ends; rem_euclid law proved for the Rat instance. "
          "Exact runs at Q with k up to +-10^6 and points next to the range ends; f64 with tolerance.", "§5 C07",
-         "f64: rounding of the wrapped argument tested with a tolerance only", "Lean 4 proof (floor/representative uniqueness) + exact periodicity runs"),
+         "f64: rounding of the wrapped argument tested with a tolerance only", "Lean 4 proof (floor/representative uniqueness) + exact periodicity runs + formula tie (kernels re-translated from the source each run, FT_* theorems)"),
  "C08": ("Kernel-checked, for ARBITRARY scalar operations (bit-identity): every model function written with the lane-wise maps commutes "
          "with the lane projection row -> row[j]? and with the single-lane embedding (Lemmas/LanesHom): C08_linear, C08_bilinear, "
          "C08_spline_solve (shared diagonals and elimination factors), C08_spline_coeffs, C08_spline_eval, C08_other_lanes(_spline); "
@@ -74,7 +76,7 @@ CLAIMED = {
          "the truncating integer guess is q-x0 on unit spacing and 0 otherwise). Exact-rational, f64 and i64 correspondence of get_lower_index "
          "(i64 axes incl. magnitudes above 2^53 and small-step axes), linear-scan oracle, exhaustive (length, guess, rank) family.", "§5 C11",
          "GuessOK for floats exercised, not proved; non-NaN float order trusted",
-         "Lean 4 proof (bisection invariant by fun_induction, field arithmetic) + exact-rational correspondence"),
+         "Lean 4 proof (bisection invariant by fun_induction, field arithmetic) + exact-rational correspondence + formula tie (kernels re-translated from the source each run, FT_* theorems)"),
  "C12": ("Theorems for every list: C12_classify/C12_iff (any linear order), C12_nan (no assumption on the comparisons), "
          "C12_shortcircuit, C12_iff_I (instantiated at the i64 model); exhaustive relation words at Q, f64 (incl. saturating extremes and equal "
          "infinities) and i64 (small and above 2^53), every NaN placement, through crate and model.", "§5 C12",
@@ -96,12 +98,12 @@ CLAIMED = {
          "strategy and boundary configuration (data x c, axis x c with converted boundary values, shifts, superposition), bit-for-bit at "
          "f64 for powers of two, negation and dyadic shifts.", "§5 C15",
          "3-point Periodic closed form under the unit changes: exact metamorphic runs only (see PARTIAL in evidence)",
-         "Lean 4 proof (Linear/Bilinear; spline scale/add/shift/axis-scale end to end) + exact metamorphic runs"),
+         "Lean 4 proof (Linear/Bilinear; spline scale/add/shift/axis-scale end to end) + exact metamorphic runs + formula tie (kernels re-translated from the source each run, FT_* theorems)"),
  "C16": ("Kernel-checked: C16_linear, C16_bilinear (every query, in range or extrapolated), C16_spline (a cubic meeting the selected end "
          "conditions is reproduced: solver returns p'(x_i) by uniqueness, Hermite form of a cubic is the cubic), C16_notAKnot (n>=4), "
          "C16_natural_line. Exact reproduction checked at Q for random dyadic polynomials, all spacings, extrapolated queries, lanes with "
          "different polynomials.", "§5 C16", "f64 'up to rounding' via C01/C02 closeness runs",
-         "Lean 4 proof (uniqueness of the spline + exact Hermite interpolation) + exact reproduction runs"),
+         "Lean 4 proof (uniqueness of the spline + exact Hermite interpolation) + exact reproduction runs + formula tie (kernels re-translated from the source each run, FT_* theorems)"),
  "C17": ("Kernel-checked: C17_state, C17_history, C17_perm, C17_schedule (any interleaving of per-thread sequences) on the step model, and "
          "C17_facts by evaluation over the source facts regenerated on every run (all 24 query methods take &self, no &mut self, no interior "
          "mutability or global state outside tests/hooks). Runs: random histories replayed permuted and on 2..16 threads against fresh "
@@ -120,7 +122,7 @@ CLAIMED = {
  "C20": ("Theorems C20_linear_data / C20_bilinear_data for ARBITRARY scalar operations (bit-identity, NaN/inf included) and "
          "C20_linear_axis / C20_bilinear_axis over ordered fields (bracket transfer); metamorphic bitwise runs on the real f64 code "
          "with poisoned rows/columns and moved knots.", "§5 C20", "axis variant for floats rests on the same-bracket premise exercised by the runs",
-         "Lean 4 proof (data-flow argument, no algebraic law) + metamorphic bitwise runs"),
+         "Lean 4 proof (data-flow argument, no algebraic law) + metamorphic bitwise runs + formula tie (kernels re-translated from the source each run, FT_* theorems)"),
 }
 
 
@@ -159,7 +161,8 @@ def main():
             "serves_properties": sorted(CLAIMED),
             "kind_free_text": ("Lean 4 theorems about a hand-written executable model (lean/NdInterp), tied to /repo on every run by running "
                                "the real generic crate at an exact rational scalar and comparing rationals with the model at Rat; property "
-                               "oracles on the implementation search for failing inputs"),
+                               "oracles on the implementation search for failing inputs; the arithmetic kernels (57) and the structural source facts "
+                               "are re-translated from /repo/src on every run and the tie theorems over them re-checked"),
         }],
         "checks": checks,
         "notes": "All checks rebuild the harness against /repo's working tree. VERIF_SEED and VERIF_TIER are honoured.",
